@@ -560,6 +560,12 @@ def _vector_energies(tab, sel):
     if sel == "mixed":
         k = tab.kev
         return [k[0] * 0.5, k[0], (k[0] + k[1]) / 2, k[tab.nrows // 2], k[-1], k[-1] * 1.5, 1e-9, 1e6]
+    if sel == "mixed_desc":
+        return list(reversed(_vector_energies(tab, "mixed")))
+    if sel == "mixed_inner":
+        # in-range first and last entries, the out-of-range ones in between, not sorted
+        k = tab.kev
+        return [k[tab.nrows // 2], 1e6, k[0], k[0] * 0.5, (k[0] + k[1]) / 2, k[-1] * 1.5, 1e-9, k[-1], k[1]]
     raise ValueError(sel)
 
 
@@ -718,7 +724,7 @@ def task_tables(tier, seed, arg):
             cand.add(math.exp(rng.uniform(math.log(lo * 1.001), math.log(hi * 0.999))))
         for E in sorted(cand):
             chk_wavelength(acc, {"kind": "wavelength", "file": stem, "E": E})
-        for sel in ("nodes", "mids", "mixed"):
+        for sel in ("nodes", "mids", "mixed", "mixed_desc", "mixed_inner"):
             chk_vector(acc, {"kind": "vector", "file": stem, "sel": sel})
         # ions / isotopes of the element
         el = element_of(file_symbol(stem))
@@ -755,7 +761,7 @@ def task_tables(tier, seed, arg):
             "1.001*E_last, 1 ulp-scale outside, x10, far, 0, negative; scalar, vector, wavelength=), "
             "wavelength=h*c*1e7/E for edge nodes/midpoints, every %s interior node and midpoint and 20 "
             "seeded energies per file, vector-vs-scalar (ndarray/list/wavelength) over all nodes, all "
-            "midpoints and a mixed in/out vector, every ion charge of every tabulated element at 2 "
+            "midpoints and mixed in/out vectors (ascending, descending, unsorted with in-range ends), every ion charge of every tabulated element at 2 "
             "energies, %s isotopes (+ one isotope ion each), D/T and their ions, every element without a "
             "file -> (None, None), xray_wavelength/xray_energy at 7 energies.  Tolerance: |obs-exp| <= "
             "1e-12*max|bracketing node values| + 4 ulp(E)*max|df/dE| of the adjacent intervals (the keV "
